@@ -97,9 +97,11 @@ CFG = dict(
              "graph edits (ConnectNodes, CreateNode, DeleteNode, SetNodeAsProducer, ApplyAppSchema) concurrent with the three calls are outside the "
              "property and the model: they mutate i.producers / i.nodeIDs without producerLock; the whitelisted pre-lock producers lookup is "
              "sound only because none of the three entry points writes that map",
-             "GENUINE RACE reported by the race extra on the real server: room.(*Hub).Run() hub.go:176 / StartedEndpoint app_server.go:228 read "
-             "Instance.movelVersion without the lock while UpdateParameter increments it under the lock (source: 'TODO: Make thread safe'); "
-             "minimal fix atomic.Uint32 — see notes/C13.md (reported to the coordinator)",
+             "a genuine race was found by the race extra on the real server (hub goroutine / StartedEndpoint reading Instance.movelVersion "
+             "unlocked while UpdateParameter wrote it) and FIXED in /repo as 899edf1 (atomic); the race extra now covers the server's hub "
+             "goroutine and handlers too",
+             "if the loopback server cannot be started or reached in the environment, the HTTP families are dropped (note http.unavailable in the "
+             "evidence) and only the Instance-level families run — check the notes of a run to see which case it was",
              "explicit (non-deferred) Unlock: a panic between Lock and Unlock would leave the mutex held — a deadlock the harness watchdog would show, "
              "not the lock facts; today all three functions defer the Unlock",
              "malformed JSON in UpdateParameter, unknown node ids / producer names (panic) are not generated; liveness is not claimed",
@@ -134,8 +136,9 @@ CFG = dict(
              "steps compose to the sequential operation) rests on the lock facts plus correspondence, not on a Go semantics; the split of "
              "process() into micro-steps is one level deep. artifact_snapshot inherits C11's guard (acyclic graph) and holds for every "
              "processor; the micro-step programs (artifactTrace) are those of all-reading processors. The HTTP layer is exercised (parameter/producer endpoints), not modelled; graph edits concurrent with the "
-             "three calls are not modelled. GENUINE RACE found on the real server: the hub goroutine / StartedEndpoint read "
-             "Instance.movelVersion unlocked while UpdateParameter writes it (hub.go:176, app_server.go:228; fix: atomic). Value semantics of returned results (no aliasing with buffers a later update writes) is a tested "
+             "three calls are not modelled. A genuine race found this way (hub goroutine reading the model version "
+             "unlocked) was fixed in /repo (899edf1); the race extra covers the server's hub goroutine. If loopback is unavailable the HTTP "
+             "families are skipped with a note (http.unavailable) in the evidence. Value semantics of returned results (no aliasing with buffers a later update writes) is a tested "
              "predicate (results_immutable), not a theorem.",
         technique="Lean 4 proof (linearizability of the atomic lock protocol over C11's model, refinement from the fine-grained locked system, "
                   "verified witness checker) + regenerated lock facts + recorded-history validation + race detector"),
